@@ -27,6 +27,15 @@ def setHashEnvelopeProtectedHeader (base : GoMap) (p : HashPayload) : GoMap :=
   let h := match p.pct with | some v => h.set (lbl 259) v | none => h
   if p.location.length > 0 then h.set (lbl 260) (.str p.location) else h
 
+/-- `canText` (hash_envelope.go): a Go string that is valid UTF-8 — what the decoder of the
+    envelope demands of a text string -/
+def canText : GoVal → Bool
+  | .str b => utf8Valid b
+  | _ => false
+
+theorem canText_canTstr {v : GoVal} (h : canText v = true) : canTstr v = true := by
+  cases v <;> simp_all [canText, canTstr]
+
 def hashProtLoop : GoMap → Bool → Option Bool
   | [], found => some found
   | (l, v) :: r, found =>
@@ -37,8 +46,8 @@ def hashProtLoop : GoMap → Bool → Option Bool
       (match v with
        | .alg _ => hashProtLoop r true
        | _ => if canInt v then hashProtLoop r true else none)
-    | some (.int _ 259) => if canUint v || canTstr v then hashProtLoop r found else none
-    | some (.int _ 260) => if canTstr v then hashProtLoop r found else none
+    | some (.int _ 259) => if canUint v || canText v then hashProtLoop r found else none
+    | some (.int _ 260) => if canText v then hashProtLoop r found else none
     | some _ => hashProtLoop r found
 
 def hashUnprotOK : GoMap → Bool
